@@ -1,7 +1,12 @@
 import Oracle.Proto
-/-! Oracle suites of property C14 (registered in Oracle/Main.lean through `suites`). -/
+import Oracle.ECS
+/-! Oracle suites of property C14. -/
 namespace Oracle.C14
 
-def suites : List (String × Suite) := []
+def suites : List (String × Suite) := [
+  ("ecs", Oracle.ECS.model),
+  ("ecs-spec", Oracle.ECS.spec),
+  ("ecs-judge", Oracle.ECS.judge)
+]
 
 end Oracle.C14
